@@ -81,6 +81,14 @@ for n in ["index_format", "index_roundtrip", "index_parse", "twin"]:
     add("codec_" + n, "crate::h_codec::" + n, 70)
 
 
+X16 = ["ethnum::intrinsics::mul2 => crate::stubs::mul2_x16", "ethnum::intrinsics::mul3 => crate::stubs::mul3_x16",
+       "ethnum::intrinsics::umulc => crate::stubs::umulc_x16"]
+add("codec_probe_serialize_const", "crate::h_codec::probe_serialize_const", 70)
+add("codec_probe_parse_const", "crate::h_codec::probe_parse_const", 70)
+add("codec_probe_parse_sym", "crate::h_codec::probe_parse_sym", 70, X16)
+add("codec_probe_parse_sym_nostub", "crate::h_codec::probe_parse_sym", 70)
+
+
 # ---- PushN (C10) -------------------------------------------------------------------------------
 PUSHN_ALL = []
 for n in range(0, 34):
